@@ -13,7 +13,7 @@ import (
 func init() {
 	vfRegister(&vfProp{
 		id:       "C18",
-		classes:  []string{"os-prog", "rs-prog", "os-burst", "rs-burst", "rs-burst-park"},
+		classes:  []string{"os-prog", "rs-prog", "os-burst", "rs-burst", "rs-burst-park", "os-prog", "rs-prog", "os-burst", "rs-burst", "rs-burst-park", "big"},
 		gen:      c18Gen,
 		exec:     c18Exec,
 		valid:    vfValidSessionProgram,
@@ -33,6 +33,11 @@ func c18Gen(class string, seed uint64, tier string) *vfScenario {
 		}
 		sc.Ops = vfGenProgram(rng, int(sc.Cfg["kind"]), 1+rng.IntN(40))
 		sc.Cfg["sites"] = int64(1 + rng.IntN(3))
+	case "big":
+		// large maxTxPacket, a large file, reads around the allocator's page size (see C02 class big)
+		sc = c02Gen("big", seed, tier)
+		delete(sc.Cfg, "alloc")
+		return sc
 	default:
 		sc = c14Gen(map[string]string{"os-burst": "os", "rs-burst": "rs", "rs-burst-park": "rs-park"}[class], seed, tier)
 	}
@@ -253,7 +258,7 @@ func c18Around(b []byte, i int) []byte {
 // c18Normalise removes what legitimately differs between two runs on two fresh tmpfs trees:
 // the tree's own name, kernel timestamps (and the date inside longnames), statvfs counters.
 func c18Normalise(stream []byte, root string) []byte {
-	var fr wFramer
+	fr := wFramer{max: 4 << 20} // a server with a raised maxTxPacket sends frames beyond the default limit
 	var out []byte
 	for _, f := range fr.feed(stream) {
 		p, err := wParseResp(f)
